@@ -271,6 +271,20 @@ def run(prog, rep):
                       "attribute %s is copied from %s on a path that does not know (%s.%s is None and %s.%s is not None)" % (attr, vt, me, attr, src, attr),
                       where(f, st), witness="a set %s of the destination (e.g. a falsy but set value such as uncertainty 0) is overwritten, "
                       "or an unset one is not filled" % attr)
+            # ... and on nothing else of the two objects: a fill of X that also asks about another attribute Y (an `elif` chain, a nested test)
+            # leaves X unset for some pairs although the source has a value
+            others = []
+            for test, pol, br in g.dominating_conditions(n):
+                if pol not in ("true", "false"):
+                    continue
+                for leaf in ast.walk(x.expand(test, br)):
+                    if isinstance(leaf, ast.Attribute) and isinstance(leaf.value, ast.Name) and leaf.value.id in (me, src) and leaf.attr != attr \
+                            and leaf.attr.lstrip("_") != attr.lstrip("_") and not leaf.attr.startswith("__"):
+                        others.append("%s.%s" % (leaf.value.id, leaf.attr))
+            rep.check(not others, "FILL-1", "%s: fill %s depends on %s only" % (f.short, attr, attr), "no other attribute decides",
+                      "whether %s is filled also depends on %s: for some pairs the destination keeps an unset %s although the source has one"
+                      % (attr, sorted(set(others)), attr), where(f, st),
+                      witness="destination without %s and without %s, source with both: only the first is taken over" % (attr, sorted(set(others))[0].split(".")[-1] if others else "?"))
     rep.floor("FILL-1", n_fill, 7, "guarded attribute fills")
 
     # ------------------------------------------------------------ shared rules
